@@ -482,7 +482,7 @@ def _json_default(o):
 
 
 def write_evidence(prop, tier, seed, coverage, wall_s, violations, assumptions):
-    path = os.path.join(VERIF, "evidence", "%s.json" % prop)
+    path = os.path.join(os.environ.get("VERIF_EVIDENCE_DIR") or os.path.join(VERIF, "evidence"), "%s.json" % prop)
     ev = {
         "property_id": prop,
         "tier": tier,
